@@ -1306,7 +1306,7 @@ def _t(label):
 def run(ctx):
     _T0[0] = time.time()
     ctx.assumptions += [
-        "base32 is an abstract coding with the section hypothesis dec(upper(lower(enc p))) = p (tested on the real coding on every run)",
+        "base32 (RFC 4648 alphabet, no padding, case folding) is modelled concretely and its round trip is proved (C15_b32_roundtrip); the real coding is compared with it on every run",
         "X25519, Elligator, AES, noise are section variables with the stated algebraic laws (not proved)",
         "the Go in-package drivers, the case generators and the JSON->Gallina emitter are trusted",
     ]
